@@ -306,12 +306,21 @@ def _has_var(e):
 class Sym:
     """Scalar symbolic proxy."""
 
-    __slots__ = ("e",)
+    __slots__ = ("e", "weak", "fp")
     __array_priority__ = 1000
 
-    def __init__(self, e):
+    def __init__(self, e, weak=False, fp=0):
         assert isinstance(e, z3.ExprRef), e
         self.e = e
+        # floating-point provenance of a real-valued scalar computed by the code (A-REAL treats its VALUE as exact):
+        # 0 = exact (integers, constants, inputs), 1 = ONE correctly rounded operation (a quotient: exact whenever the
+        # true result is representable, e.g. an integer), 2 = arithmetic ON rounded values (errors accumulate: when the
+        # true value is an integer the computed one may land on either side of it).  Only ceil / floor / int() look at it
+        self.fp = fp
+        # JAX weak type: a Python scalar turned into an array WITHOUT a dtype keeps taking the dtype of whatever it is
+        # combined with; an explicit dtype fixes it.  Only recorded (for contracts that say a scalar argument must reach a
+        # user function as weakly typed as it was given); arithmetic drops the mark
+        self.weak = weak
 
     # -- introspection ---------------------------------------------------------------------------
     @property
@@ -353,7 +362,39 @@ class Sym:
                 return k
         raise EngineLimit("symbolic value used as a concrete index (not within 0..15)")
 
-    __int__ = __index__
+    def __int__(self):
+        if self.e.sort() == z3.RealSort():
+            return self._round_to_int("trunc").__index__()
+        return self.__index__()
+
+    def _round_to_int(self, how):
+        """math.ceil / math.floor / int() of a real-valued scalar -> integer Sym.  Exact for values computed exactly or
+        by one correctly rounded operation; for arithmetic on rounded values (fp == 2) the result is the exact one, or -
+        when the true value is an integer - possibly the neighbour on the unstable side (documented floating-point
+        behaviour: 100/3 - 10/3 = 30.000000000000004, whose ceil is 31)"""
+        e = self.e
+        if e.sort() == z3.IntSort():
+            return self
+        if e.sort() != z3.RealSort():
+            raise EngineLimit("rounding of a %s term" % e.sort())
+        fl = z3.ToInt(e)
+        is_int = z3.ToReal(fl) == e
+        exact = {"floor": fl, "ceil": z3.If(is_int, fl, fl + 1), "trunc": z3.If(e >= 0, fl, z3.If(is_int, fl, fl + 1))}[how]
+        if self.fp < 2:
+            return Sym(exact)
+        Assumed.note("floating point: ceil / floor / int() of a value computed by arithmetic on ROUNDED quantities (e.g. a difference of two inexact quotients) may fall on either side of an integer the true value equals")
+        r = fresh("rounded_" + how, z3.IntSort())
+        engine().assume(z3.And(r >= exact - 1, r <= exact + 1, z3.Implies(r != exact, is_int)))
+        return Sym(r)
+
+    def __ceil__(self):
+        return self._round_to_int("ceil")
+
+    def __floor__(self):
+        return self._round_to_int("floor")
+
+    def __trunc__(self):
+        return self._round_to_int("trunc")
 
     # -- arithmetic ------------------------------------------------------------------------------
     def _bin(self, other, op, reflected=False):
@@ -363,7 +404,14 @@ class Sym:
             return NotImplemented
         a, b = (o, self.e) if reflected else (self.e, o)
         a, b = _num2(a, b)
-        return Sym(op(a, b))
+        r = Sym(op(a, b))
+        if r.e.sort() == z3.RealSort():
+            ofp = other.fp if isinstance(other, Sym) else 0
+            if max(self.fp, ofp) >= 1:
+                r.fp = 2
+            elif getattr(op, "__vt_rounds__", False) and not z3.is_rational_value(z3.simplify(r.e)):
+                r.fp = 1
+        return r
 
     def __add__(self, o):
         return self._bin(o, lambda a, b: a + b)
@@ -391,6 +439,7 @@ class Sym:
                 b = z3.ToReal(b)
             return a / b
 
+        div.__vt_rounds__ = True
         return self._bin(o, div)
 
     def __rtruediv__(self, o):
@@ -401,6 +450,7 @@ class Sym:
                 b = z3.ToReal(b)
             return a / b
 
+        div.__vt_rounds__ = True
         return self._bin(o, div, True)
 
     def __floordiv__(self, o):
